@@ -154,7 +154,9 @@ def run(ctx):
         if c[0] == "variant":
             return True
         if c[0] == "call" and (c[1].endswith("::eq") or c[1].endswith("::ne")):
-            return any(isinstance(a, tuple) and a[0] == "agg" and a[2] == "Nil" for a in c[2])
+            # `node == Nil` on the remaining list — not on a node's *element* (`*term == Nil` skips a node)
+            others = [strip(a) for a in c[2] if not (isinstance(a, tuple) and a[0] == "agg" and a[2] == "Nil")]
+            return len(others) == 1 and len(c[2]) == 2 and not (others[0][0] == "field" and others[0][2].endswith("SLinkedList.term"))
         if c[0] == "unop":
             return shape_test(c[2])
         return False
